@@ -15,7 +15,7 @@ RULE = (
     "on the live instance)"
 )
 BOUNDS = {
-    "quick": "3 group addresses (g1, g2, g1#two) x {new,reuse} x {collect_paths, collect_by_line} x 3 clock steps = 36 operations, all histories to depth 3; plus all same-second chains of 4 and 5 runs over 4 operations",
+    "quick": "3 group addresses (g1, g2, g1#two) x {new,reuse} x {collect_paths, collect_by_line} x 3 clock steps = 36 operations, all histories to depth 3; plus all same-second chains of 4 and 5 runs over 4 operations; plus all 36 ordered pairs (x 2 groups x 2 clock steps) and 216 ordered triples of the six run methods on one reused instance",
     "thorough": "same 36 operations to depth 4, plus all six run methods (72 operations) to depth 2",
 }
 DEPTH = {"quick": 3, "thorough": 4}
@@ -70,6 +70,14 @@ def extra_histories(tier):
             if t[0][1] == "reuse":
                 continue
             hs.append([list(o) for o in t])
+    # (c) every ordered pair and triple of the six run methods on ONE reused instance (what one method leaves behind for the next)
+    for m1 in METHODS_ALL:
+        for m2 in METHODS_ALL:
+            for g2 in ("g1", "g2"):
+                for c in (0, 1):
+                    hs.append([["g1", "new", m1, 0], [g2, "reuse", m2, c]])
+            for m3 in METHODS_ALL:
+                hs.append([["g1", "new", m1, 0], ["g1", "reuse", m2, 0], ["g2", "reuse", m3, 1]])
     if tier == "thorough":
         o = []
         for g in ("g1", "g2"):
